@@ -342,7 +342,7 @@ func TestVerifC10(t *testing.T) {
 	scratch = filepath.Join(scratch, fmt.Sprintf("c10-%d", r.Shard))
 	os.MkdirAll(scratch, 0o755)
 	defer os.RemoveAll(scratch)
-	r.Rule("every header made of <= H atoms from a 13-atom alphabet (folding with spaces/tabs, trailing spaces, empty/998-octet/very long values, repeated fields, 8-bit, UTF-8, mixed-case names) parsed by the endpoint's header parser, crossed with every history in {first attempt, retry, restart, restart+retry}; plus the full product body (6, incl. binary and a >1 MiB file-backed one) x envelope (sender null/IDN/quoted, 1-2 recipients, SMTPUTF8, REQUIRETLS, TLS-Required override, original-recipient map) x history; each message goes through the real queue; oracle: bytes of header and body, sender, pending recipients, options, override and map equal on every attempt, spool empty at the end, no spool file ever contains the authentication user name or password. Non-trivial: distinct (message, history) cases with at least one retry or restart")
+	r.Rule("every header made of <= H atoms from a 13-atom alphabet (folding with spaces/tabs, trailing spaces, empty/998-octet/very long values, repeated fields, 8-bit, UTF-8, mixed-case names) parsed by the endpoint's header parser, crossed with every history in {first attempt, retry, restart, restart+retry}; plus the full product body (6, incl. binary and a >1 MiB file-backed one) x envelope (sender null/IDN/quoted, 1-2 recipients incl. two mailboxes that differ only in letter case, SMTPUTF8, REQUIRETLS, TLS-Required override, original-recipient map) x history; each message goes through the real queue; oracle: bytes of header and body, sender, pending recipients, options, override and map equal on every attempt, spool empty at the end, no spool file ever contains the authentication user name or password. Non-trivial: distinct (message, history) cases with at least one retry or restart")
 	if rp := r.Replay(); rp != nil {
 		var c c10Case
 		if json.Unmarshal(rp, &c) != nil {
@@ -366,7 +366,8 @@ func TestVerifC10(t *testing.T) {
 	hists := []string{"first", "retry", "restart", "restart-retry"}
 	envs := []c10Env{}
 	for _, from := range []string{"sender@example.com", "", "\"quo ted\"@example.com", "s@пример.рф"} {
-		for _, rc := range [][]string{{"a@example.org"}, {"b@пример.рф", "\"we ird\"@example.org"}} {
+		// the last pair: two distinct mailboxes whose lookup keys coincide (letter case)
+		for _, rc := range [][]string{{"a@example.org"}, {"b@пример.рф", "\"we ird\"@example.org"}, {"John.Doe@example.org", "john.doe@example.org"}} {
 			for mask := 0; mask < 32; mask++ {
 				envs = append(envs, c10Env{From: from, Rcpts: rc, UTF8: mask&1 != 0, ReqTLS: mask&2 != 0, Override: mask&4 != 0, OrigMap: mask&8 != 0, Quar: mask&16 != 0})
 			}
